@@ -7,7 +7,7 @@ EXTENDS Cli, Json
 CONSTANTS MaxPresent
 \* value palettes as sequences (a set cannot mix numbers, booleans and strings in TLC)
 Pal == [n |-> <<1000, 3500>>, m |-> <<4000, 9000>>, s |-> <<0, 1500>>, a |-> <<500, 250>>, e |-> <<40, 60>>, d |-> <<TRUE>>, R |-> <<TRUE>>,
-        u |-> <<"0", "1", "mix">>, M |-> <<6000, 14500>>, r |-> <<8000>>, c |-> <<2>>, w |-> <<4>>, L |-> <<TRUE>>, q |-> <<TRUE>>,
+        u |-> <<"0", "1", "mix">>, M |-> <<6000, 14500>>, r |-> <<8000>>, c |-> <<2>>, w |-> <<4>>, f |-> <<"raw", "wav">>, L |-> <<TRUE>>, q |-> <<TRUE>>,
         O |-> <<"stream">>, o |-> <<"regions">>, j |-> <<0, 2500>>]
 VARIABLES o
 Subsets == {S \in SUBSET OptNames : Cardinality(S) <= MaxPresent}
